@@ -30,6 +30,11 @@ CONTRACTS = [
             "present(result[1], 'default') == present(old(param[1]), 'default')",
             "implies(present(old(param[1]), 'default'), same(field(result[1], 'default'), field(old(param[1]), 'default')))",
             "present(result[1], 'typ') == present(old(param[1]), 'typ')",
+            # and the converse, which is what lets a default written in the prose come back at all: a description that does NOT
+            # mention the word gets the clause appended whenever there is a default to announce (a **kwargs entry with a None
+            # default is the documented exception)
+            "implies(emit_default_doc and present(old(param[1]), 'doc') and present(old(param[1]), 'default') and not %s and not endswith(old(param[0]), 'kwargs'),"
+            " contains(field(result[1], 'doc'), ' Defaults to ') and startswith(field(result[1], 'doc'), field(old(param[1]), 'doc')))" % MENTIONS,
         ],
         pure_results={"needs_quoting": "bool"},
     ),
